@@ -458,7 +458,8 @@ class kFlowDecomp(pathmodel.AbstractPathModelDAG):
         non_empty_paths = []
         non_empty_weights = []
         for path, weight in zip(solution["paths"], solution["weights"]):
-            if len(path) > 1:
+            # a node-weighted path may consist of a single node (a node that is both a source and a sink)
+            if len(path) > (0 if self.flow_attr_origin == "node" else 1):
                 non_empty_paths.append(path)
                 non_empty_weights.append(weight)
         return {"paths": non_empty_paths, "weights": non_empty_weights}
